@@ -187,13 +187,19 @@ def write_cases(thorough: bool) -> list[tuple[tuple[tuple[str, bool, str], ...],
     return out
 
 
+OWN = "1.1.250"   # the client's own individual address (sim/bus.py CLIENT): a device may be configured with the same one
+
+
 def write_pops(thorough: bool) -> list[tuple[tuple[str, bool, str], ...]]:
     full = device_configs(BEHAVIOURS)
+    own = [(OWN, pm, b) for pm in (False, True) for b in ("normal", "refuse", "silent")]
     red = device_configs(["normal", "silent", "nak-on-data"])
     out: list[tuple[tuple[str, bool, str], ...]] = [()]
     out += [(a,) for a in full]
     out += list(itertools.product(full, repeat=2))
     out += list(itertools.product(full, repeat=3))
+    # a device that shares the client's own address (alone and next to every other device configuration, both orders)
+    out += [(a,) for a in own] + [(a, b) for a in own for b in full] + [(b, a) for a in own for b in full]
     if thorough:
         out += list(itertools.product(red, repeat=4))
     return out
